@@ -160,6 +160,121 @@ type c02Case struct {
 	Route string `json:"route"`
 	Path  string `json:"path"`
 	Flame bool   `json:"flame_level,omitempty"`
+	// sequence mode: Routes on one tree, History matched first (in order), then Path; the answer for Path
+	// must be the one a fresh tree gives
+	Routes  []string `json:"routes,omitempty"`
+	History []string `json:"earlier_requests_on_the_same_tree,omitempty"`
+}
+
+// c02SeqRoutes / c02SeqPaths: the request sequences on trees with one or two routes.
+var c02SeqRoutes = []string{"/n/{x}/e", "/a/?{x}", "/{x}/{y}/{z}", "/n/?{m: **}", "/{m: **}/{x}", "/n/{x}/?{y}", "/{r: /[an]+/}/e", "/{m: **, capture: 2}/e", "/a/{x}-{y}/n", "/e"}
+
+type c02Ans struct {
+	found  bool
+	leaf   string
+	params string
+}
+
+func c02Answer(tree route.Tree, raw string) c02Ans {
+	leaf, params, found, pan := safeMatch(tree, raw, nil)
+	if pan != nil {
+		return c02Ans{leaf: fmt.Sprintf("panic: %v", pan)}
+	}
+	a := c02Ans{found: found}
+	if found {
+		a.leaf = leaf.Route()
+		a.params = fmtParams(params)
+	}
+	return a
+}
+
+func c02SeqTree(p *route.Parser, routes []string) (route.Tree, bool) {
+	cat, bad := mkCatalogue(p, routes)
+	if len(bad) > 0 {
+		return nil, false
+	}
+	tree := route.NewTree()
+	for _, cr := range cat {
+		if _, err, pan := safeAddRoute(tree, cr.AST); err != nil || pan != nil {
+			return nil, false
+		}
+	}
+	return tree, true
+}
+
+// c02SeqReplay: History then Path on one fresh tree against Path alone on another.
+func c02SeqReplay(p *route.Parser, c c02Case) (bool, string) {
+	t1, ok1 := c02SeqTree(p, c.Routes)
+	t2, ok2 := c02SeqTree(p, c.Routes)
+	if !ok1 || !ok2 {
+		return false, "routes not registrable as recorded"
+	}
+	for _, h := range c.History {
+		c02Answer(t1, h)
+	}
+	got, want := c02Answer(t1, c.Path), c02Answer(t2, c.Path)
+	if got != want {
+		return true, fmt.Sprintf("after %d earlier requests the tree answers %q with %+v, a fresh tree with %+v", len(c.History), c.Path, got, want)
+	}
+	return false, ""
+}
+
+// c02Sequences: what Match hands out is a function of the routes and the path, not of earlier requests:
+// every ordered pair of paths on every tree of one or two routes, compared with a fresh tree.
+func c02Sequences(r *core.Run, p *route.Parser) {
+	paths := pathsOver([]string{"a", "n", "e"}, 3, []string{"/a/a-a/n", "/a/a-/n", "/n/a/e/e"})
+	r.Bounds["sequence_routes"] = c02SeqRoutes
+	r.Bounds["sequence_paths"] = len(paths)
+	n := len(c02SeqRoutes)
+	r.Parallel(func(w, nw int, l *core.Local) {
+		for c := w; c < n*n; c += nw {
+			if r.Expired() {
+				return
+			}
+			routes := []string{c02SeqRoutes[c/n], c02SeqRoutes[c%n]}
+			if c/n == c%n {
+				routes = routes[:1]
+			}
+			tree, ok := c02SeqTree(p, routes)
+			if !ok {
+				l.Extra["sequence_trees_not_registrable(C08)"]++
+				continue
+			}
+			l.States++
+			fresh := make([]c02Ans, len(paths))
+			for i, pth := range paths {
+				t, _ := c02SeqTree(p, routes)
+				fresh[i] = c02Answer(t, pth)
+			}
+			var history []string
+			for _, p1 := range paths {
+				for i2, p2 := range paths {
+					c02Answer(tree, p1)
+					got := c02Answer(tree, p2)
+					l.Evals++
+					l.Transitions += 2
+					l.Traces++
+					l.Extra["two_request_sequences"]++
+					if fresh[i2].found {
+						l.NonTrivial++
+					}
+					if got != fresh[i2] {
+						cs := c02Case{Routes: routes, History: []string{p1}, Path: p2}
+						if rep, _ := c02SeqReplay(p, cs); !rep {
+							cs.History = append(append([]string{}, history...), p1)
+						}
+						l.Class("mismatch")
+						l.Violate("answer-depends-on-earlier-requests", fmt.Sprintf("routes %q: after earlier requests (last %q) the tree answers %q with %+v, a fresh tree with %+v", routes, p1, p2, got, fresh[i2]), cs)
+					} else if got.found {
+						l.Class("sequence:second-request-as-on-a-fresh-tree")
+					} else {
+						l.Class("not-dispatched")
+					}
+					history = append(history, p1, p2)
+				}
+			}
+		}
+	})
 }
 
 // c02Judge compares what the implementation handed out with the reference alignments.
@@ -260,7 +375,7 @@ func c02Run(r *core.Run) {
 	if err != nil {
 		panic(err)
 	}
-	r.Rule = "engine E: every generated regex-style / placeholder / match-all segment (1..3 elements over literals incl. regex-active ones, {x}, {y: /E/}, two-parameter lists; E incl. own groups and alternations) embedded alone / final / non-final / middle / optional, x every candidate path text (all strings <=L over {a,b,1,+,.,-} plus per-element candidate products incl. %-escapes); oracle: dispatched iff admitted, and SOME alignment of the route to the raw path exists whose once-decoded captures equal the received values; non-trivial = dispatched and (>=2 binds or an escape in the path)"
+	r.Rule = "engine E: every generated regex-style / placeholder / match-all segment (1..3 elements over literals incl. regex-active ones, {x}, {y: /E/}, two-parameter lists; E incl. own groups and alternations) embedded alone / final / non-final / middle / optional, x every candidate path text (all strings <=L over {a,b,1,+,.,-} plus per-element candidate products incl. %-escapes); plus every ordered pair of requests on every tree of one or two routes of a second catalogue (the second answer must be a fresh tree's); oracle: dispatched iff admitted, and SOME alignment of the route to the raw path exists whose once-decoded captures equal the received values; non-trivial = dispatched and (>=2 binds or an escape in the path)"
 	r.Assumptions = []string{"Go regexp trusted, used per expression alone", "parameters left over from abandoned branches are not flagged (documented by Tree.Match); only the matched route's binds are compared", "expressions whose meaning depends on context (anchors, \\b) are outside the alphabet"}
 	maxLen := 3
 	r.SetBudget(70 * time.Second)
@@ -398,6 +513,8 @@ func c02Run(r *core.Run) {
 		}
 	})
 
+	c02Sequences(r, p)
+
 	// flame level: values as handlers see them, and the reserved `route` parameter
 	flameJobs := jobs
 	step := 1
@@ -497,6 +614,9 @@ func c02Replay(raw json.RawMessage) (bool, string) {
 		return false, err.Error()
 	}
 	p, _ := route.NewParser()
+	if len(c.Routes) > 0 {
+		return c02SeqReplay(p, c)
+	}
 	cat, bad := mkCatalogue(p, []string{c.Route})
 	if len(bad) > 0 {
 		return false, "route does not parse"
